@@ -176,6 +176,10 @@ func sacramento(rainfall, pet data.ND1Float64,
 			//      if( uztwm+lztwm > tiny(uztwm) ) then
 			e3 = math.Min((evapt-e1-e2)*lwrTensionWater/(uztwm+lztwm), lwrTensionWater)
 			e5 = math.Min(e1+(evapt-e1-e2)*(additionalImperviousStore-e1-uprTensionWater)/(uztwm+lztwm), additionalImperviousStore)
+			if e5 < 0 {
+				// ADIMP store below the upper tension store: no evaporation from it, not a negative one
+				e5 = 0
+			}
 		}
 
 		//     Compute the transpiration loss from the lower zone tension
